@@ -188,7 +188,85 @@ def run_large(rec, seed, shard, nshards, tier):
     core.hyp_run(rec, prop, large_cases(), n, seed, shrink=False)
 
 
+# ---------------------------------------------------------------- the two command-line tools, one spelling of the rule
+_CLI = [None]
+
+
+def prop_cli(case, rec):
+    """trainer.py -r ARG then pcfg_guesser.py -r ARG (the same spelling, any invocation context): the guesser must find what the
+    trainer wrote and emit the training passwords - compared with the same list trained and expanded through the library."""
+    import shutil
+    import subprocess
+    from collections import Counter
+    from .. import cli, guesser, session, rsmodel
+    if _CLI[0] is None or not os.path.isdir(_CLI[0]):
+        _CLI[0] = session.copy_cli(session.make_root('c03cli'))
+    root = _CLI[0]
+    ctx = case.get('context') or cli.DEFAULT
+    rule, spelling = ctx.get('rule', 'T'), case.get('rule_spelling', 'bare')
+    entries = case['entries']
+    path = os.path.join(_dir(), 'train_cli.txt')
+    pc = trainer.write_list(path, entries, 'utf-8', case.get('spelling', 'plain'))
+    out = os.path.join(_dir(), 'RC')
+    r = guard(case, trainer.train, path, out, encoding='utf-8', coverage=case['coverage'], ngram=case['ngram'], alphabet_size=100, prefixcount=pc)
+    if not r.ok:
+        rec.skip('trainer_did_not_complete')
+        return
+    g = guard(case, guesser.load, out, skip_brute=True)
+    res = guard(case, guesser.run_queue, g, None, True, 3000)
+    if len(res) >= 3000 or sum(len(x[3]) for x in res) > 30000:
+        rec.skip('language_too_large')
+        return
+    want = Counter(l for x in res for l in x[3])
+    shutil.rmtree(os.path.join(root, 'Rules'), ignore_errors=True)
+    shutil.rmtree(os.path.join(root, 'external rules'), ignore_errors=True)
+    os.makedirs(os.path.join(root, 'Rules'))
+    rsmodel.write_ruleset(os.path.join(root, 'Rules', 'Default'), cli.DECOY_MODEL)
+    if case.get('stale_ruleset'):
+        # an older ruleset of the same name is already there (re-training): its words must not come back
+        rsmodel.write_ruleset(os.path.join(root, 'Rules', rule), cli.DECOY_MODEL)
+    arg = {'bare': rule, 'trailing_separator': rule + os.sep, 'subfolder': os.path.join('team', rule),
+           'absolute': os.path.join(root, 'external rules', rule)}[spelling]
+    try:
+        p1 = cli.run(root, 'trainer.py', ['-t', path, '-r', arg, '-e', 'utf-8', '-c', str(case['coverage']), '-n', str(case['ngram'])] +
+                     (['--prefixcount'] if pc else []), ctx, timeout=600, rule_name=rule)
+        p2 = cli.run(root, 'pcfg_guesser.py', ['-r', arg, '--skip_brute'], ctx, timeout=300, rule_name=rule)
+    except subprocess.TimeoutExpired:
+        rec.skip('cli_timeout_inconclusive')
+        return
+    got = Counter(p2.stdout.decode('utf-8', 'replace').split('\n')[:-1])
+    rec.case({'rule_arg': arg, 'context': ctx, 'guesses': sum(want.values())}, len(want) >= 3, ['cli_train_then_guess', 'cli_rule_' + spelling] + cli.label(ctx),
+             key=[entries, case['coverage'], case['ngram'], ctx, spelling, case.get('stale_ruleset')])
+    if got != want:
+        miss, extra = list((want - got).items())[:4], list((got - want).items())[:4]
+        raise Violation('cli_train_then_guess', f'trainer.py -r {arg!r} then pcfg_guesser.py -r {arg!r} (started in {ctx.get("cwd")}): the guesser writes '
+                        f'{sum(got.values())} guesses, the library pipeline {sum(want.values())}; missing {miss} unexpected {extra}; trainer rc {p1.returncode}, '
+                        f'guesser rc {p2.returncode}, guesser stderr tail {p2.stderr.decode("utf-8", "replace")[-200:]}', case)
+
+
+@st.composite
+def cli_cases(draw):
+    from .. import cli
+    from .c19 import valid_password
+    entries, seen = [], set()
+    for _ in range(draw(st.integers(1, 6))):
+        p_ = draw(pwgen.password(max_frags=3))
+        if p_ not in seen and valid_password(p_) and len(p_) <= 20 and in_domain(p_, 'utf-8'):
+            seen.add(p_)
+            entries.append([p_, draw(st.sampled_from([1, 2, 5]))])
+    entries += [e for e in [['password1', 6], ['Monkey12', 5], ['love2019!', 2]] if e[0] not in seen]
+    return {'entries': entries, 'coverage': draw(st.sampled_from([0.6, 1])), 'ngram': draw(st.sampled_from([2, 3, 4])),
+            'spelling': draw(st.sampled_from(trainer.SPELLINGS)), 'context': draw(cli.contexts()),
+            'rule_spelling': draw(st.sampled_from(['bare', 'trailing_separator', 'subfolder', 'absolute'])), 'stale_ruleset': draw(st.booleans())}
+
+
+def run_cli(rec, seed, shard, nshards, tier):
+    n = {'quick': 5, 'thorough': 60}[tier]
+    core.hyp_run(rec, prop_cli, cli_cases(), n, seed, shrink=(tier == 'thorough'))
+
+
 PARTS = [
+    Part('cli_train_then_guess', run_cli, prop_cli, {'quick': 4, 'thorough': 8}),
     Part('train_then_guess', run_main, prop, {'quick': 8, 'thorough': 16}),
     Part('large_lists', run_large, prop, {'quick': 4, 'thorough': 8}),
 ]
